@@ -10,3 +10,4 @@ for s in "$@"; do
     [ $rc -ne 0 ] && { grep -E 'VIOLATION|INCONCLUSIVE|signature' .sweep.log | head -20; cp .sweep.log sweep-fail-$s-C$i.log; }
   done
 done
+exit 0
